@@ -194,3 +194,24 @@ func IteStr(c bool, a, b string) string {
 	}
 	return b
 }
+
+// EnumPad is Enum with all alternatives padded by trailing blanks to the same length (so that source
+// positions in a skeleton do not depend on the choice).
+func EnumPad(name string, alts ...string) string {
+	m := 0
+	for _, a := range alts {
+		if len(a) > m {
+			m = len(a)
+		}
+	}
+	padded := make([]string, len(alts))
+	for i, a := range alts {
+		padded[i] = a + strings.Repeat(" ", m-len(a))
+	}
+	v, ok := get(name)
+	if !ok {
+		return padded[len(padded)-1]
+	}
+	s, _ := v.(string)
+	return s + strings.Repeat(" ", m-len(s))
+}
